@@ -221,9 +221,9 @@ fn shapes(tier: Tier) -> Vec<(usize, usize, &'static [Op], usize)> {
         ],
         Tier::Thorough => vec![
             (2, 1, &MENU_FULL[..], usize::MAX),
-            (2, 2, &MENU_FULL[..], 3),
-            (3, 1, &MENU_FULL[..], 3),
-            (2, 3, &MENU_QUICK[..], 2),
+            (2, 2, &MENU_FULL[..], 2),
+            (3, 1, &MENU_FULL[..], 2),
+            (2, 3, &[Op::CallT, Op::CallL, Op::CompileCall][..], 2),
             (2, 2, &MENU_LISTS[..], usize::MAX),
             (3, 1, &MENU_LISTS[..], usize::MAX),
         ],
